@@ -7,3 +7,5 @@ func c30EndToEnd(c *vk.Ctx, all []string) {}
 func c01EndToEnd(c *vk.Ctx) {}
 
 func c02EndToEnd(c *vk.Ctx) {}
+
+func c42EndToEnd(c *vk.Ctx) {}
